@@ -8,7 +8,7 @@ PROP = dict(
     rule='one case = one engine and the whole history of Analyze/AnalyzeAll calls made on it. Positions: live positions of random '
          'playouts on 3x3..5x5 (road-racing and other policies, full and reduced reserves, both tie-break settings), biased to the last '
          'plies before the end so that forced results are near. Clause 1: no table, MakePrecise, sort on/off, symmetry de-duplication '
-         'on/off, winner-only and default evaluator, 1-3 calls per engine, AnalyzeAll. Clause 2: tables of 2 entries up to the 100 MB '
+         'on/off, winner-only and default evaluator, 1-3 calls per engine, AnalyzeAll - half of the AnalyzeAll calls cancelled inside the k-th leaf evaluation, k inside the leaves of Analyze itself, during the second pass or after the call (oracle: value exact, every listed first move attains it - class analyze-all-lists-unsearched-move -, the whole set when not reported as cancelled, with NoSort a prefix of the uninterrupted call limited to the reported depth). Clause 2: tables of 2 entries up to the 100 MB '
          'default, histories of 1-5 (thorough 8) calls over neighbouring positions of one game incl. repeats and calls cancelled inside '
          'the k-th leaf evaluation. Every case is judged by the exhaustive-negamax / forced-result oracle; the cases whose configuration '
          'is deterministic for the model (NoSort, no de-duplication, table <= 4096 entries) are also replayed by the extracted model. '
@@ -30,18 +30,19 @@ MANIFEST = dict(
          "theorem holds under the explicit side condition `within` (the searched tree stays inside C01's 64-piece stack limit; "
          "the model's loops over the move generator take the node's own number of generated moves as fuel - Search.gfuel, proved sufficient - so no bound on it is assumed). Computed examples: Analyze next to exhaustive negamax on live 3x3 "
          "positions, incl. a reused engine and a cancelled call. "
-         "analyze_all_exact (SearchAll1-4.v): in the same setting AnalyzeAll (model Search.analyze_all) reports Analyze's line first and then, "
-         "as first moves, exactly filter (not Equal to pv[0], accepted, child value = the reported value) over AllMoves in the generator's "
-         "order (AllMoves order with NoSort or at depth 1, otherwise the history-table order = a permutation): every listed first move "
-         "attains the value, every entry of AllMoves - and every raw move value - that attains it is listed up to Move.Equal, no two listed "
-         "moves are Equal (C05_analyze_all_exact_64, _sets_64, _complete_raw); for a cancelled call the same holds as long as the flag was "
-         "not seen set when AnalyzeAll returns, and a computed counter-example replayed on the real engine shows that afterwards it does "
-         "not (C05_analyze_all_cancelled_refuted: the second pass runs with the flag set and abandoned child searches count as value 0). "
+         "analyze_all_exact (SearchAll1-4.v): in the same setting the REPAIRED AnalyzeAll (model Search.analyze_all_cancel; fix: AnalyzeAll stops listing "
+         "lines once the search is cancelled) reports Analyze's line first and then, as first moves, a PREFIX - the whole when the call is not reported "
+         "as cancelled - of filter (not Equal to pv[0], accepted, child value = the reported value) over AllMoves in the generator's "
+         "order (AllMoves order with NoSort or at depth 1, otherwise the history-table order = a permutation): for EVERY cancellation point every "
+         "listed first move attains the value and no two are Equal; not reported as cancelled => every entry of AllMoves - and every raw move value - "
+         "that attains it is listed up to Move.Equal (C05_analyze_all_exact_64, _sets_cancel_64, _sets_64, _complete_raw). The code before the repair "
+         "(switch `pinned` of the model) satisfies this only while the flag is unset and listed losing moves afterwards "
+         "(C05_analyze_all_cancelled_refuted_pinned, reproduced on the unrepaired engine; C05_analyze_all_cancelled_fixed for the repaired model). "
          "The model (transposition table, move generator "
          "with hint de-duplication, history/response heuristics, iterative deepening, cancellation) is replayed against MinimaxAI.Analyze/"
          "AnalyzeAll on every history of calls (PV, value, depth at L1; the 17 Stats counters at L2), and an independent exhaustive "
          "negamax / forced-result solver judges value, first move, AnalyzeAll's set and the win/loss verdicts on fresh and reused engines.",
     ref='5.5', technique='Coq proof (PVS = negamax) + extracted-model/implementation differential over call histories + exhaustive negamax oracle',
     note="Trusted: Coq kernel, extraction, transcription of ai/minimax.go and ai/moves.go (validated by execution), generators. "
-         "The table clause (tt_valid_preserved, win_sound_complete) and symmetry de-duplication are tested, not proved; AnalyzeAll's set is proved for uncancelled calls (a cancelled AnalyzeAll can list moves that do not attain the value - see C05_analyze_all_cancelled_refuted; the check does not cancel AnalyzeAll). "
+         "The table clause (tt_valid_preserved, win_sound_complete) and symmetry de-duplication are tested, not proved; AnalyzeAll's set is proved for every cancellation point (soundness always, completeness when not reported as cancelled). Found and repaired through this property: a cancelled AnalyzeAll listed moves whose searches were abandoned (known_findings: analyze-all-lists-unsearched-move). "
          "The model's loops over the move generator are bounded by the node's own number of generated moves (a first version used a constant fuel of 700, which made the model - not the Go code - stop early on positions with more moves; found by the C17 low-reserve family and removed).")
